@@ -546,6 +546,29 @@ class Scenario:
         self.relocated = moved > 0
         self.descr.append(['relocate-shards', moved])
 
+    def op_damage_cache(self):
+        """an earlier run was interrupted while it wrote a cache entry: the entry is empty / a proper prefix / has a flipped byte.
+        Everything afterwards must behave exactly as with a sound cache (the oracles of the following commands do not know)"""
+        files = [p for p in Path(self.dep.cache).rglob('*') if p.is_file()] if self.dep.cache and Path(self.dep.cache).exists() else []
+        if not files:
+            # warm the cache first
+            u = self.rng.choice(self.users)
+            self.must(self.dep.run('ls', '--no-header', user=u), 'list-snapshots')
+            files = [p for p in Path(self.dep.cache).rglob('*') if p.is_file()] if Path(self.dep.cache).exists() else []
+        hit = 0
+        for p in self.rng.sample(files, min(len(files), self.rng.choice([1, 1, 2, 3]))):
+            data = p.read_bytes()
+            how = self.rng.choice(['empty', 'prefix', 'prefix', 'flip'])
+            if how == 'empty' or not data:
+                p.write_bytes(b'')
+            elif how == 'prefix':
+                p.write_bytes(data[:self.rng.randrange(1, len(data))] if len(data) > 1 else b'')
+            else:
+                i = self.rng.randrange(len(data))
+                p.write_bytes(data[:i] + bytes([data[i] ^ 0x01]) + data[i + 1:])
+            hit += 1
+        self.descr.append(['damage-cache', hit])
+
     # -- faulted commands
     def dry_table(self, user, args):
         """chunk paths the snapshot of these arguments will reference: taken from a completed run in a copy of the repository"""
@@ -578,9 +601,12 @@ class Scenario:
                 victim = 'snapshot'          # leaves garbage for the cleans that follow
             fn = rng.choice(['replace', 'replace', 'unlink', 'tempfile'] if victim == 'snapshot' else ['unlink', 'unlink', 'scandir', 'replace'])
             inject = [{'fn': fn, 'k': rng.randint(0, 7), 'when': rng.choice(['before', 'after']), 'action': 'kill'}]
+        elif victim == 'snapshot' or rng.random() < 0.35:
+            # ONE transient I/O error while an object is created (temp-file creation or the final rename): the backend retries it;
+            # the command must either mask it completely or fail - never publish a damaged object
+            victim = 'snapshot'
+            inject = [{'fn': rng.choice(['replace', 'replace', 'tempfile']), 'k': rng.randint(0, 5), 'when': 'before', 'action': rng.choice(['EIO', 'EMFILE', 'ENOSPC'])}]
         else:
-            if victim == 'snapshot':
-                victim = 'clean'
             inject = [{'fn': 'scandir', 'k': rng.randint(0, 9), 'when': 'before', 'action': rng.choice(['EACCES', 'EACCES', 'EIO', 'EMFILE'])}]
         what = f'{victim} with {inject[0]["action"]} at {inject[0]["fn"]} #{inject[0]["k"]} ({inject[0]["when"]})'
         if victim == 'snapshot':
@@ -636,6 +662,8 @@ class Scenario:
     def history(self):
         rng = self.rng
         weights = {'snapshot': 5, 'repeat': 2, 'delete': 3, 'delete_foreign': 1, 'clean': 2, 'observe': 1.5, 'relocate': 1.2}
+        if self.dep.cache:
+            weights['damage_cache'] = 2
         if self.kind == 'kill':
             weights['faulted'] = 4
         if self.kind == 'oserror':
@@ -683,6 +711,8 @@ class Scenario:
                 self.op_observe(user)
             elif kind == 'relocate':
                 self.op_relocate()
+            elif kind == 'damage_cache':
+                self.op_damage_cache()
             elif kind == 'faulted':
                 self.op_faulted()
         # final: every listed snapshot restores through the tool
